@@ -12,6 +12,7 @@ def run(ctx):
     T.tbl8_event_buffer_codec(ctx)
     T.tbl9_catalogue_codec(ctx)
     R.pan1_awaited_jobs_report_failures(ctx)
+    D.erv4_no_error_discarded(ctx)
     return ctx.finish(
         'Static analysis: (a) MIR dataflow/dominance on the blob envelope - the payload is returned '
         'only after minimum-length, version, total-length and SHA-256 checks over exactly the '
